@@ -55,6 +55,11 @@ SanRejects(pos, ms) ==
       \* ambiguous: two or more officers of one kind reach the square and no disambiguation is given
       ambiguous == UNION {{UpperKind(k) \o (IF b[t] # Empty THEN "x" ELSE "") \o SqNameT[t] :
                              t \in {t \in Squares : Cardinality(goes(k, t)) >= 2}} : k \in officers}
+      \* a file (or rank) given as disambiguation that still leaves two candidates
+      ambfile == UNION {UNION {{UpperKind(k) \o FileNames[f + 1] \o (IF b[t] # Empty THEN "x" ELSE "") \o SqNameT[t] :
+                                  t \in {t \in Squares : Cardinality({y \in goes(k, t) : FileOf(y.f) = f}) >= 2}} : f \in 0..7} : k \in officers}
+      ambrank == UNION {UNION {{UpperKind(k) \o RankNames[r + 1] \o (IF b[t] # Empty THEN "x" ELSE "") \o SqNameT[t] :
+                                  t \in {t \in Squares : Cardinality({y \in goes(k, t) : RankOf(y.f) = r}) >= 2}} : r \in 0..7} : k \in officers}
       \* nothing of that kind goes there at all
       nothing == UNION {{UpperKind(k) \o (IF b[t] # Empty THEN "x" ELSE "") \o SqNameT[t] :
                            t \in {t \in Squares : goes(k, t) = {}}} : k \in officers}
@@ -74,5 +79,5 @@ SanRejects(pos, ms) ==
       offboard == {UpperKind(k) \o FileNames[f] \o d : k \in officers, f \in 1..8, d \in {"0", "9"}}
                   \cup {FileNames[f] \o d : f \in 1..8, d \in {"0", "9"}}
                   \cup {UpperKind(k) \o c \o RankNames[r] : k \in officers, c \in {"i", "j"}, r \in 1..8}
-  IN ambiguous \cup nothing \cup wrongfile \cup pawnno \cup pawncapno \cup nocastle \cup offboard
+  IN ambiguous \cup ambfile \cup ambrank \cup nothing \cup wrongfile \cup pawnno \cup pawncapno \cup nocastle \cup offboard
 =============================================================================
